@@ -50,15 +50,21 @@ func (w *World) RevList(roots []string, fl RevListFlags, chooseCommit, chooseObj
 		if o == nil {
 			return nil, &FatalError{fmt.Sprintf("fatal: bad object %s", r)}
 		}
-		name := r
 		for o.Kind == KTag {
-			pending = append(pending, pend{o.ID, name})
+			// git names a tag object after its own "tag" header
+			tagName := ""
+			for _, kv := range headerLines(o.Body) {
+				if kv[0] == "tag" {
+					tagName = kv[1]
+					break
+				}
+			}
+			pending = append(pending, pend{o.ID, tagName})
 			ti := DecodeTag(o.Body)
 			t := get(ti.Object)
 			if t == nil {
 				return nil, &FatalError{fmt.Sprintf("fatal: bad object %s", ti.Object)}
 			}
-			name = "" // nested objects carry the tag name; only the length could matter
 			o = t
 		}
 		switch o.Kind {
@@ -137,7 +143,9 @@ func (w *World) RevList(roots []string, fl RevListFlags, chooseCommit, chooseObj
 				return elig[i].seq < elig[j].seq
 			})
 		}
-		for _, id := range order {
+		// git enqueues the tips in list order, which for equal dates is
+		// the order they were given in
+		for _, id := range tips {
 			if indeg[id] == 0 {
 				add(id)
 			}
